@@ -48,6 +48,8 @@ WITNESSES = {
     # a syntax error at a place where an expression may start: more than twenty acceptable tokens
     "make_error_from_parse_error#many-expected-tokens": "struct Foo:\n  1 [+]  UInt  y\n",
     "make_error_from_parse_error#condition": "struct Foo:\n  0 [+1]  UInt  x\n  if x == :\n    1 [+1]  UInt  y\n",
+    # several C++ reserved words as namespace components: one back-end error each
+    "_verify_namespace_attribute": '[(cpp) namespace: "class::int::new::delete::switch::template"]\nstruct Foo:\n  0 [+1]  UInt  x\n',
     "_find_object_dependency_cycles": ('[$default byte_order: "LittleEndian"]\nstruct Foo:\n'
                                        "  a [+1]  UInt  b\n  b [+1]  UInt  a\n  c [+1]  UInt  d\n  d [+1]  UInt  c\n  e [+1]  UInt  f\n  f [+1]  UInt  e\n"),
 }
